@@ -10,10 +10,14 @@ def register(prop, J):
          jobs=[
              J("determinism-v2", "v2", "codecprops", "^TestC09", checks=(6000, 300000), shards=(4, 16), prepare="prepare_codec",
                extra_pkgs=["dyn", "gendrv"], timeout=(900, 3000)),
+             J("determinism-v1", "v1", "codecprops", "^TestC09", checks=(4000, 150000), shards=(4, 16), prepare="prepare_codec",
+               extra_pkgs=["dyn", "gendrv"], timeout=(900, 3000)),
          ],
          level_text="byte identity of encodings across insertion orders, nil-vs-empty representations, repetitions (Go re-randomises map "
                     "iteration per range statement) and fresh processes (different map hash seeds), plus canonical order of object "
                     "keys, query parameters and batch ids checked on the reference-parsed output",
-         level_note="v2 only, as the property states; complex-key batch id order is covered by the resource-level harness (C16)",
+         level_note="the property is stated for v2; the root-module job runs the same checks except parameter order (root-module "
+                    "bindings export no per-field marshaler and the root query writer keeps the order parameters are supplied in); "
+                    "complex-key batch id order is covered by the resource-level harness (C16)",
          technique="property-based testing (rapid), metamorphic byte-identity relation, multi-process digest comparison",
          design_ref="2/C09")
